@@ -314,6 +314,11 @@ func sub(elems []any, nonTerminals []lex.Token, defaultField string) ([]any, []l
 		return elems, nonTerminals, false
 	}
 
+	// the thing between the parens must already be a parsed expression
+	if _, ok := elems[1].(*expr.Expression); !ok {
+		return elems, nonTerminals, false
+	}
+
 	// we consumed two terminals, the ( and )
 	return []any{elems[1]}, drop(nonTerminals, 2), true
 }
